@@ -367,10 +367,10 @@ def c02(facts, tier):
     # BGV correction-factor balancing (and every other place a signed quantity is reduced): the sign is not dropped
     n = r_contra.run_absmod(facts, rep, None if tier == "thorough" else
                             {"src/evaluator.rs", "src/util/number_theory.rs", "src/util/scaling_variant.rs"})
-    rep.floor("R-CONTRA(absmod)", "reduced magnitudes of signed locals", n, 2)
+    rep.floor("R-CONTRA(absmod)", "reduced magnitudes of signed locals", n, 1)
     # multiply_many: the pairwise product tree stays in bounds for odd operand counts and keeps its products
     n = r_contra.run_pairwise(facts, rep, None if tier == "thorough" else {"src/evaluator.rs"})
-    rep.floor("R-CONTRA(pairs)", "pairwise-consuming loops", n, 2)
+    rep.floor("R-CONTRA(pairs)", "pairwise-consuming loops", n, 1)
     return rep
 
 
